@@ -56,6 +56,35 @@ def nom_take_cases(rng, tier):
                     out.append('T %d %d %s' % (cnt, off, b.hex() if b else '-'))
     return out
 
+def nom_bytes_cases(rng, tier):
+    """C08/C07: the library routines behind the numeric fields (u8::from_str after digit1; nom's hex_u32),
+    run as themselves against their transcriptions in Model/NomBytes.v: every short string over the
+    characters that matter, every value with leading zeros, long digit runs"""
+    out = []
+    dec_alpha = b'0129+- a5'
+    for n in range(0, 5):
+        for t in itertools.product(dec_alpha, repeat=n):
+            b = bytes(t)
+            out.append('N d ' + hexs(b)); out.append('N s ' + hexs(b))
+    for v in range(0, 1300):
+        for z in (0, 1, 2, 5, 17):
+            b = b'0' * z + str(v).encode()
+            out.append('N d ' + hexs(b + b',1')); out.append('N s ' + hexs(b))
+    for b in (b'4294967295', b'4294967296', b'18446744073709551616', b'255', b'256', b'0255', b'0256', b'25 5', b'\xc3\xa9', b'\xff', b'+255', b'+256', b'+0', b'++1', b'-0', b'1_0', b'1e1', b'0x10', b'\xef\xbc\x91'):
+        out.append('N d ' + hexs(b)); out.append('N s ' + hexs(b))
+    hex_alpha = b'09afAFgG*'
+    for n in range(0, 5):
+        for t in itertools.product(hex_alpha, repeat=n):
+            out.append('N x ' + hexs(bytes(t)))
+    for n in range(5, 14):
+        for _ in range(scale(tier, 60, 600)):
+            b = bytes(rng.choice(b'0123456789abcdefABCDEF') for _ in range(n)) + rng.choice([b'', b'\r', b'zz', b'*', b' 1'])
+            out.append('N x ' + hexs(b))
+    for v in range(256):
+        for f in ('%02X', '%02x', '%X', '%08X', '%09X', '%010x', '000000%02X5'):
+            out.append('N x ' + hexs((f % v).encode()))
+    return out
+
 def bulk_cases(rng, tier, types=None, per_type=None):
     """plain volume: plausible payloads of every type (identities with decimal structure, all other
     fields uniformly random) — finds dependences of a field on the *value* of another field that
